@@ -653,6 +653,53 @@ func C13(c *Ctx) {
 		}
 	})
 	c.R.Check(okInt, "C13-R4", "ActionSource.Compile: unknown interpreter rejected", c.P.Pos(asCompile.Pos()), "nil interpreter returns an error", "an unknown interpreter is accepted at compile time")
+	// ... and "known" means registered under exactly that name: the registry's lookup is keyed by the name it is given,
+	// and ActionSource.Compile asks for the name the action carries
+	if find := c.P.Func("core", "InterpretersMap", "Find"); find != nil && len(find.Params) == 2 {
+		c.R.Fn(fname(find))
+		var bad []string
+		nlk := 0
+		ssau.Instrs(find, func(in ssa.Instruction) {
+			switch x := in.(type) {
+			case *ssa.Lookup:
+				if _, isMap := x.X.Type().Underlying().(*types.Map); isMap {
+					nlk++
+					if x.Index != ssa.Value(find.Params[1]) {
+						bad = append(bad, "a lookup keyed by "+x.Index.Name()+" instead of the given name ("+c.pos(x)+")")
+					}
+				}
+			case *ssa.Call:
+				if sc := x.Common().StaticCallee(); sc == find {
+					bad = append(bad, "Find calls itself with another name ("+c.pos(x)+")")
+				}
+			case *ssa.Range:
+				bad = append(bad, "Find searches the registry instead of looking the name up ("+c.pos(x)+")")
+			}
+		})
+		sort.Strings(bad)
+		c.R.Check(len(bad) == 0 && nlk > 0, "C13-R4", "InterpretersMap.Find: an interpreter is known under exactly its registered name", c.P.Pos(find.Pos()), fmt.Sprintf("%d lookup(s), each keyed by the given name", nlk), strings.Join(bad, "; ")+": a name the host did not register is resolved to some other interpreter, so a spec written for an interpreter this host lacks compiles here and fails (or behaves differently) at run time")
+	} else {
+		c.R.Break("C13-R4: core.InterpretersMap.Find not found")
+	}
+	ssau.Instrs(asCompile, func(in ssa.Instruction) {
+		cl, isC := in.(*ssa.Call)
+		if !isC || !cl.Common().IsInvoke() || cl.Common().Method.Name() != "Find" {
+			return
+		}
+		is := true
+		nleaf := 0
+		for _, d := range deepDefs(cl.Common().Args[0], []*ssa.Function{asCompile}) {
+			if _, isK := d.(*ssa.Const); isK {
+				continue // a default for an action that names none
+			}
+			nleaf++
+			if _, isF := isFieldLoad(d, "core", "ActionSource", "Interpreter"); !isF {
+				is = false
+			}
+		}
+		is = is && nleaf > 0
+		c.R.Check(is, "C13-R4", "ActionSource.Compile: asks for the interpreter the action names", c.pos(cl), "Find(ActionSource.Interpreter)", "the interpreter is looked up under something else than the name the action carries")
+	})
 	// unknown syntax: the default parser's switch default returns an error
 	okSyn := false
 	if init := c.P.SSAPkgs[prog.Abs("core")].Members["DefaultPatternParser"]; init != nil {
@@ -899,6 +946,60 @@ func c13OneDecoder(c *Ctx, pkg, recv, name string) {
 				both = c.pos(b)
 			}
 		}
+	}
+	// which decoder: decided by what the body starts with, not by where it came from or how it is called
+	untrimmed := map[ssa.Instruction]bool{}
+	byContent := func(in ssa.Instruction) bool {
+		for _, ft := range flow.FactsAt(in.Block()) {
+			bo, isB := ft.Cond.(*ssa.BinOp)
+			if !isB || (bo.Op != token.EQL && bo.Op != token.NEQ) {
+				continue
+			}
+			if k, isC := ssau.ConstInt(bo.Y); !isC || k != '{' {
+				continue
+			}
+			if ld, isLd := bo.X.(*ssa.UnOp); isLd {
+				if ia, isIA := ld.X.(*ssa.IndexAddr); isIA {
+					if sl, isSl := ia.X.Type().Underlying().(*types.Slice); isSl {
+						if bt, isBt := sl.Elem().Underlying().(*types.Basic); isBt && bt.Kind() == types.Uint8 {
+							trimmed := false
+							for _, d := range varOrigins(f, ia.X) {
+								if cl, isCl := d.(*ssa.Call); isCl {
+									switch ssau.CalleeName(cl) {
+									case "bytes.TrimSpace", "bytes.TrimLeft", "bytes.TrimLeftFunc":
+										trimmed = true
+										continue
+									}
+								}
+								trimmed = false
+								break
+							}
+							if !trimmed {
+								untrimmed[bo] = true
+							}
+							return true
+						}
+					}
+				}
+			}
+		}
+		return false
+	}
+	if diffs := nameDisagreements(c.P.NamedType("core", "Spec")); len(diffs) > 0 {
+		okSel := true
+		for _, in := range append(append([]ssa.Instruction{}, js...), ys...) {
+			if !byContent(in) {
+				okSel = false
+			}
+		}
+		if okSel {
+			at := c.pos(js[0])
+			for in := range untrimmed {
+				at = c.pos(in)
+			}
+			c.R.Check(len(untrimmed) == 0, "C13-R6", fname(f)+": the representation is decided on the first byte that is not white space", at, "the body that is sniffed comes from bytes.TrimSpace / TrimLeft", "a JSON document that starts with white space (a newline, an indent) is taken for YAML and loses the fields whose JSON names the YAML decoder does not know")
+		}
+		c.R.Check(okSel, "C13-R6", fname(f)+": the decoder is chosen by the body's first byte", c.pos(js[0]), "each decode is under a comparison of a byte of the body with '{'", "the JSON or the YAML decoder is chosen by something else than the content (a file name, say): a JSON body that reaches the YAML decoder loses the fields whose JSON names it does not know ("+diffs[0]+", ...)")
 	}
 	c.R.Check(both == "", "C13-R6", fname(f)+": one decoder per body", c.pos(js[0]), "the JSON and the YAML decode are on different paths", "a body decoded as JSON also goes through the YAML decoder ("+both+"): the YAML reading of the JSON text replaces the nodes (numbers such as 1e3 become strings, legal JSON escapes are rejected)")
 }
